@@ -3031,10 +3031,24 @@ def w_latebind( ctx ):
         for fn, loop, names in _late_bound( src.tree ):
             # used up within the round: handed straight to a call that consumes it at once ( sorted / min / max / filter / map / any / all key= ... )
             par = src.parent.get( fn )
+            EAGER = ( 'sorted', 'min', 'max', 'any', 'all', 'sum', 'next', 'list', 'tuple', 'set', 'frozenset', 'dict' )
             if isinstance( par, ( ast.Call, ast.keyword )):
                 call = par if isinstance( par, ast.Call ) else src.parent.get( par )
-                if isinstance( call, ast.Call ) and call_name( call ) in ( 'sorted', 'min', 'max', 'any', 'all', 'sum', 'next', 'list', 'tuple' ) :
+                if isinstance( call, ast.Call ) and call_name( call ) in EAGER:
                     res.ok( src, fn, 'callable over the loop variable %s consumed within the round by %s(...)' % ( ', '.join( names ), call_name( call )))
+                    continue
+                # map( lambda ... ) / filter( lambda ... ) handed straight to an eager consumer, a join, or iterated on the spot
+                if isinstance( call, ast.Call ) and call_name( call ) in ( 'map', 'filter' ):
+                    outer = src.parent.get( call )
+                    if ( isinstance( outer, ast.Call ) and ( call_name( outer ) in EAGER or ( isinstance( outer.func, ast.Attribute ) and outer.func.attr == 'join' ))) \
+                       or ( isinstance( outer, ( ast.For, ast.comprehension )) and outer.iter is call ):
+                        res.ok( src, fn, 'callable over the loop variable %s consumed within the round through %s(...)' % ( ', '.join( names ), call_name( call )))
+                        continue
+            # a helper defined in the round and only ever CALLED in it ( never stored, passed on or returned )
+            if isinstance( fn, ast.FunctionDef ):
+                uses = [ x for x in ast.walk( loop ) if isinstance( x, ast.Name ) and x.id == fn.name and isinstance( x.ctx, ast.Load ) ]
+                if uses and all( isinstance( src.parent.get( x ), ast.Call ) and src.parent[x].func is x for x in uses ):
+                    res.ok( src, fn, 'helper %s over the loop variable %s is only called within the round' % ( fn.name, ', '.join( names )))
                     continue
             res.bad( src, fn, 'a callable made in the loop over %s reads %s as free variable%s ( %s )' % (
                          norm_text( loop.target ), ', '.join( names ), 's' if len( names ) > 1 else '', norm_text( fn )[:60] ),
